@@ -161,3 +161,23 @@ def build(drv, cls, conn_id, txid, h, port, rnd, numwant=-1, event="started", le
     if cls == "scrape_ragged":
         return scrape_req(conn_id, txid, [info_hash(x) for x in (hs or [1])]) + bytes(rnd.randrange(256) for _ in range(rnd.randrange(1, 20)))
     raise ToolError("unknown class " + cls)
+
+
+def ready_or_record(trace, tracker, server, ip, reset_event):
+    """Readiness probe.  A tracker process that is alive but does not answer connect requests from `ip`
+    for 15 s is not a tool problem: the unanswered connect is recorded (send + quiet) so that the
+    specification rejects it.  Returns True if the tracker answered."""
+    try:
+        udp_wait_ready(server, ip=ip, tracker=tracker)
+        return True
+    except ToolError as e:
+        if "did not answer" in str(e) and tracker.alive():
+            trace.append(reset_event)
+            fam_class = "v6" if ":" in ip else "v4"
+            trace.append({"ev": "send", "sock": "probe", "src": {"class": fam_class, "host": ip}, "sport0": False,
+                          "len": 16, "class": "connect_ok", "conn": "none", "txid": 12345, "h": 0, "port": 0,
+                          "hs": [], "event": "none", "left": 1, "numwant": -1,
+                          "note": "readiness probe: no answer from a running tracker for 15 s"})
+            trace.append({"ev": "quiet", "socks": ["probe"]})
+            return False
+        raise
